@@ -77,6 +77,20 @@ class Prop:
         # decode() in any order (the layout is selected by the payload's own bits, whatever the carrier)
         rng = ctx.rng('e2e')
         sub = [x for x in cs[::6 if ctx.tier == 'quick' else 2] if x[0] != 'unsupported']
+        # shorter forms of the layouts that end in a variable-length field (whole octets / characters, among
+        # them the lengths right at the fragment boundaries): the fields in front of it are where they are
+        for cname, cls in sorted(gen.concrete_classes().items()):
+            name, off, w, d_type, signed, varlen = gen.field_offsets(cls)[-1]
+            if not varlen:
+                continue
+            unit = 6 if d_type is str else 8
+            for k in sorted(set([1, 2, 5, 11, 42, w // unit] + gen.critical_tail_units(cls))):
+                if k * unit <= w:
+                    b = zero_text_padding(cname, gen.payload_bits(rng, cname))[:off + k * unit]
+                    if d_type is str:
+                        # keep the text free of the terminator so that its length is what was cut
+                        b = b[:off] + ''.join(gen.bits_of_int(rng.randint(1, 31), 6) for _ in range(k))
+                    sub.append((cname, 'tail%d' % k, b))
         lines, meta = [], []
         for c, f, b in sub:
             nchar = (len(b) + 5) // 6
